@@ -535,6 +535,19 @@ fn request_name(e: &RequestError) -> &'static str {
     }
 }
 
+/// Canonical rendering of a returned error: the variant name; `RequestTimeout` with its duration in ms.
+fn render_err(e: &RequestError) -> String {
+    match e {
+        RequestError::RequestTimeout(d) => format!("RequestTimeout({})", d.as_millis()),
+        e => request_name(e).to_owned(),
+    }
+}
+
+/// What `render_err` gives for the error built from a token.
+fn render_tok(tok: &str) -> String {
+    request_error(tok).map(|e| render_err(&e)).unwrap_or_else(|| kind_of(tok).to_owned())
+}
+
 fn is_ignorable_name(name: &str) -> bool {
     IGNORABLE.contains(&name)
 }
@@ -747,7 +760,7 @@ fn runtime() -> tokio::runtime::Runtime {
 fn render_result<T>(r: &Result<T, RequestError>, ok: impl Fn(&T) -> String) -> String {
     match r {
         Ok(v) => ok(v),
-        Err(e) => format!("err:{}", request_name(e)),
+        Err(e) => format!("err:{}", render_err(e)),
     }
 }
 
@@ -872,7 +885,7 @@ fn run_spec(w: &[&str], mutant: Option<u32>, ctx: &mut Ctx) -> String {
             let (_, f, o) = &done[p];
             let want = match o {
                 Out::Ok => format!("ok:{}", f),
-                Out::Err(n) => format!("err:{}", kind_of(n)),
+                Out::Err(n) => format!("err:{}", render_tok(n)),
                 Out::None => unreachable!(),
             };
             if rendered != want {
@@ -886,7 +899,7 @@ fn run_spec(w: &[&str], mutant: Option<u32>, ctx: &mut Ctx) -> String {
             let want = done
                 .iter()
                 .rev()
-                .find_map(|(_, _, o)| if let Out::Err(n) = o { Some(format!("err:{}", kind_of(n))) } else { None })
+                .find_map(|(_, _, o)| if let Out::Err(n) = o { Some(format!("err:{}", render_tok(n))) } else { None })
                 .unwrap_or_else(|| "err:EmptyPlan".to_owned());
             if rendered != want {
                 ctx.fail(format!("no real answer: returned {} but the last error was {}", rendered, want));
@@ -1187,6 +1200,11 @@ fn run_gate(w: &[&str], ctx: &mut Ctx) -> String {
             if timed_out && at != t {
                 ctx.fail(format!("RequestTimeout returned at t={}, the deadline is t={}", at, t));
             }
+            if let Err(RequestError::RequestTimeout(d)) = &res {
+                if d.as_millis() as u64 != t {
+                    ctx.fail(format!("RequestTimeout reports {} ms, the configured request timeout is {} ms", d.as_millis(), t));
+                }
+            }
             if let Some((ta, k)) = attempts.iter().find(|(ta, _)| *ta > t) {
                 ctx.fail(format!("attempt on target {} started at t={} after the request deadline t={}", k, ta, t));
             }
@@ -1228,7 +1246,7 @@ fn run_gate(w: &[&str], ctx: &mut Ctx) -> String {
     let rendered = match &res {
         Ok(exec::ExecOutcome::Completed(t)) => format!("ok:{}", t),
         Ok(exec::ExecOutcome::IgnoredWriteError(t)) => format!("ign:{}", t),
-        Err(e) => format!("err:{}", request_name(e)),
+        Err(e) => format!("err:{}", render_err(e)),
     };
     if !idem || policy.is_none() {
         // one sequential walk over the plan: the attempts must be on increasing targets
